@@ -265,8 +265,9 @@ def diagnose(F: Facts, v) -> str:
             return 'F2'
         # the inline loop may have been draining an unrelated event when the guard fired
         if v['detail'].get('outcome') == 'exc:RuntimeError':
-            aw = next((a for a in F.awaits if a.actor == actor and a.ev == ev and a.e is not None), None)
-            if aw is not None:
+            for aw in F.awaits:
+                if aw.actor != actor or aw.ev != ev or aw.e is None or aw.outcome != 'exc:RuntimeError':
+                    continue
                 for (b, e), lst in F.pe.items():
                     for p in lst:
                         if p[3] and p[3][0] == 'RuntimeError' and 'Infinite loop' in p[3][1] and aw.b < p[0] < aw.e and p[2] == 'inline:' + actor:
